@@ -176,6 +176,11 @@ Theorem C13_exp2_too_large_fails : forall e, 512 * P36 < e -> exp2 e = Err EExpT
 Proof. exact exp2_too_large. Qed.
 Print Assumptions C13_exp2_too_large_fails.
 
+(* inside the documented domain Exp2 always returns: no bit-length assertion fires, the denominator is positive *)
+Theorem C13_exp2_total : forall e, 0 <= e <= 512 * P36 -> exists r, exp2 e = Ok r.
+Proof. exact exp2_total. Qed.
+Print Assumptions C13_exp2_total.
+
 Example C13_exp2_nonvacuous :
   exp2 (15 * 10 ^ 35) = Ok 2828427124746190097603377448419396158 /\          (* 2^1.5 = 2.8284271247461900976033774484193961571... *)
   exp2 0 = Ok P36 /\ exp2 (512 * P36) = Ok (2 ^ 512 * P36) /\ exp2 (512 * P36 + 1) = Err EExpTooLarge /\ exp2 (-1) = Err ENegExponent.
